@@ -32,13 +32,13 @@ func init() {
 }
 
 type c01Cfg struct {
-	N, R  int
-	P     uint64
-	TS    uint64
-	BG    bool // compaction + janitor at 20 ms cadence
-	Hist  int
-	Seed  int64
-	Park  bool // long delays at put.cond-write (inside the fragment lock) to queue competitors
+	N, R int
+	P    uint64
+	TS   uint64
+	BG   bool // compaction + janitor at 20 ms cadence
+	Hist int
+	Seed int64
+	Park bool // long delays at put.cond-write (inside the fragment lock) to queue competitors
 }
 
 func (c c01Cfg) spec() string {
